@@ -111,7 +111,7 @@ func main() {
 		}
 		sort.Strings(names)
 		fmt.Fprintln(os.Stderr, "usage: harness <engine> [flags]; engines:", names)
-		os.Exit(2)
+		os.Exit(3)
 	}
 	eng := os.Args[1]
 	fs := flag.NewFlagSet(eng, flag.ExitOnError)
